@@ -288,6 +288,13 @@ func TestC18Binary(t *testing.T) {
 		args := baseOptions(up.URL, addr)
 		var env, file []string
 		option(t, "proxy.shutdownwait", W.String(), &args, &env, &file)
+		// profiling switched on (an operator chasing a problem) changes nothing about the drain
+		if prof := rapid.SampledFrom([]string{"cpu", "", "mem", "", "block"}).Draw(t, "profile.mode"); prof != "" {
+			option(t, "profile.mode", prof, &args, &env, &file)
+			option(t, "profile.path", tmpDir, &args, &env, &file)
+			hx.Class("binary:profiling-on")
+		}
+		firstSignal := rapid.SampledFrom([]syscall.Signal{syscall.SIGINT, syscall.SIGTERM}).Draw(t, "signal")
 		if grace > 0 {
 			option(t, "proxy.deregistergraceperiod", grace.String(), &args, &env, &file)
 		}
@@ -331,7 +338,7 @@ func TestC18Binary(t *testing.T) {
 			hx.Class("binary:sighup-ignored")
 		}
 		sig := time.Now()
-		p.cmd.Process.Signal(syscall.SIGTERM)
+		p.cmd.Process.Signal(firstSignal)
 		if rapid.Bool().Draw(t, "second-signal") {
 			second := rapid.SampledFrom([]syscall.Signal{syscall.SIGTERM, syscall.SIGINT, syscall.SIGHUP}).Draw(t, "second")
 			after := time.Duration(rapid.IntRange(1, 40).Draw(t, "second-after-pct")) * short / 100
